@@ -137,6 +137,21 @@ NOT_APPLICABLE = {
     'C15': 'pure function of (spectrum, units, distance); no schedule, fault or history',
     'C20': 'pure function of one text line; the end-of-input clause is exercised but not decided by C10\'s data-stream workload',
 }
+# dimensions added to the workloads after the seeded-change rounds (DESIGN.md section 5 "As built", section 12)
+ALSO = {
+    'C05': 'rankings of 1100-140000 fits with a relative selector cutting inside them; plot() of several sources in one call with plot_max and a threshold tuned on one of them (curves per source counted); a two-record file hop with an in-place edit between the writes',
+    'C07': 'filters in either frequency order, built in memory or read from files, the same Filter objects handed to every call; aperture axis stored in any order; cube validity flags; SEDS column order; seven unit spellings; finely sampled SEDs (1030-4200 wavelengths); a model on another grid with the same size and end points; bystander Fitters; remove_resolved',
+    'C08': 'grids of up to 16421 models with the planted model in the tail; aperture axis stored in any order; zero-band and shell models; parameter columns in float64/float32/int64 with names like AV/SCALE; negative A_V ranges; unit spellings; left-over compressed convolved files',
+    'C09': 'parameter columns stored as float64 / float32 / int64, named like the fitter\'s own quantities or wider than a listing column, NaN values; additional parameters of mixed int/float type; grids of 1030-4200 models; extract_parameters options',
+    'C10': 'duplicate source names; lines typed with tabs / aligned columns / exponent notation; twin sources built independently of sedfitter\'s line parser; catalogues of 101-130 sources and grids of 1100-2100 models; a manual-writer family (Fitter.fit + FitInfoFile.write over re-used, edited Source objects); plot() with sources= / manual axes / labels off',
+    'C11': 'sources held as lists, tuples, big-endian, strided or integer arrays (references from plain float lists); shell models with remove_resolved; a filter listed twice with other apertures; name / wavelength filter lists; bystander Fitters',
+    'C12': 'apertures of the stored objects in any order (cells keyed by aperture value); model names from one pool shared by all objects of a history, every model of a cube extracted; uncertainties in another unit; reads in another unit family',
+    'C16': 'aperture axis stored in any order; unit spellings incl. MJy / uJy / legacy MJY; float32 wavelength columns with window ends within rounding of tabulated wavelengths; re-runs over left-overs of another epoch',
+    'C17': 'cubes of 1030-4200 wavelengths; validity flags; aperture axis in any order; apertures beyond the table (judged where the clamp is exact); negative A_V; filters in any order; wavelengths in any length unit',
+    'C18': 'explicit names containing auto / good / bad, in sub-directories or next to the input; \'auto\' built at run time; best chi^2 of exactly 0 and one ulp from threshold x n_data; re-used output names',
+    'C19': 'earlier generations written to and read from the same path before the judged file; cuts applied to the path itself with sibling files present; observer reads of the growing file',
+}
+
 PENDING = {}   # id -> reason, for properties whose check is planned but not built yet
 
 ALL = ['C%02d' % i for i in range(1, 21)]
@@ -152,7 +167,7 @@ def main():
             'evidence_file': 'evidence/%s.json' % pid,
             'replay_cmd_template': './check %s --replay {path}' % pid,
             'engine': 'pipesim',
-            'level_claimed': {'category': level, 'text': text, 'design_ref': ref},
+            'level_claimed': {'category': level, 'text': text + ' Also varied: ' + ALSO[pid] + '.', 'design_ref': ref},
             'level_note': note,
             'technique': tech,
         })
